@@ -306,6 +306,10 @@ def reindent(code, original_seg):
 def main(repo_path, tier, seed, replay=None):
     run = Run('C05', tier, level='proof', seed=seed)
     repo = Repo(repo_path)
+    import re
+    from .. import memo
+    memo.check(run, repo, 'C05-MEMO', lambda rel, q: q.split('.')[-1] in ('condition_passed', 'current_cond', 'in_it_block', 'last_in_it_block') or rel.endswith('all_registers/cpsr.py'),
+               'the condition evaluation (ConditionPassed / CurrentCond / the CPSR flag views)')
     eff = Effects(repo)
     bind = Binding(repo)
     exempt = {}
